@@ -8,11 +8,14 @@ A spec is a JSON list of items
 
   {"name": "newman_step",                      Lean name of the definition
    "file": "src/pyunicorn/core/network.py",
-   "func": "Network.newman_betweenness",       Class.method or function (`name#k`: k-th def of that name)
+   "func": "Network.newman_betweenness",       Class.method or function (`name#k`: k-th def of that name);
+                                               `.pyx` files: a top-level def, read line by line (see parse_pyx)
    "target": "step",                           assigned name | "return" | "subscript:<arr>"
                                                | "index:<arr>" (load) | "sindex:<arr>" = "store_index:<arr>"
                                                (index of a subscript that is assigned to) | "call:<f>#<i>"
    "occurrence": 0,                            which matching statement (default 0)
+   "matches": "min_dist",                      optional regex on the candidate expression's text (ast.unparse);
+                                               `occurrence` then counts among the matching candidates
    "params": [["N","Int"],["max_parts","Int"]],  free names of the expression, with Lean types
    "ret": "Int",                               Lean type of the result
    "rename": {"self.N": "N", "mpi.size": "size"}  optional: dotted names -> parameter
@@ -48,6 +51,7 @@ be generated (a broken tie, settled by the failing-input search).
 import ast
 import json
 import os
+import re
 import sys
 from fractions import Fraction
 
@@ -56,6 +60,41 @@ REPO = os.environ.get("VERIF_REPO", "/repo")
 
 class Untranslatable(Exception):
     pass
+
+
+def parse_pyx(src):
+    """Cython source (`.pyx`): every top-level `def f(` becomes a FunctionDef whose body
+    holds those lines of f that are plain Python taken one by one (assignments, augmented
+    assignments, and the headers of `for`/`if`/`while`, given an empty `pass` body);
+    `cdef` declarations, signatures and whatever else does not parse are skipped.
+    Line numbers and column offsets refer to the real file."""
+    mod = ast.Module(body=[], type_ignores=[])
+    cur = None
+    for no, line in enumerate(src.split("\n"), 1):
+        m = re.match(r"(?:def|cpdef|cdef)\s+(?:[\w\[\], ]+\s+)?(\w+)\s*\(", line)
+        if m:
+            cur = ast.FunctionDef(
+                name=m.group(1), body=[], decorator_list=[], lineno=no, col_offset=0,
+                args=ast.arguments(posonlyargs=[], args=[], kwonlyargs=[], kw_defaults=[],
+                                   defaults=[]))
+            mod.body.append(cur)
+            continue
+        s = line.strip()
+        if cur is None or not s or s.startswith("#") or not line[0].isspace():
+            continue
+        try:
+            node = ast.parse(s + " pass" if s.endswith(":") else s).body[0]
+        except SyntaxError:
+            continue
+        indent = len(line) - len(line.lstrip())
+        for n in ast.walk(node):
+            if hasattr(n, "lineno"):
+                n.lineno += no - 1
+                n.end_lineno += no - 1
+                n.col_offset += indent
+                n.end_col_offset += indent
+        cur.body.append(node)
+    return mod
 
 
 def find_func(tree, qual):
@@ -89,7 +128,7 @@ def dotted(n):
     return None
 
 
-def find_stmt(func, target, occurrence):
+def find_stmt(func, target, occurrence, matches=None):
     hits = []
     for n in ast.walk(func):
         if target == "return" and isinstance(n, ast.Return) and n.value is not None:
@@ -125,6 +164,9 @@ def find_stmt(func, target, occurrence):
             if argi < len(n.args):
                 hits.append((n.lineno, n.args[argi]))
     hits.sort(key=lambda h: h[0])
+    if matches is not None:
+        # keep the candidates whose expression text (ast.unparse) matches the regex
+        hits = [h for h in hits if isinstance(h[1], ast.AST) and re.search(matches, ast.unparse(h[1]))]
     if occurrence >= len(hits):
         raise Untranslatable(f"statement `{target}` #{occurrence} not found "
                              f"({len(hits)} candidates)")
@@ -295,10 +337,10 @@ def translate_item(item, cache):
     path = os.path.join(REPO, item["file"])
     if path not in cache:
         src = open(path).read()
-        cache[path] = (src, ast.parse(src))
+        cache[path] = (src, parse_pyx(src) if path.endswith(".pyx") else ast.parse(src))
     src, tree = cache[path]
     func = find_func(tree, item["func"])
-    lineno, expr = find_stmt(func, item["target"], item.get("occurrence", 0))
+    lineno, expr = find_stmt(func, item["target"], item.get("occurrence", 0), item.get("matches"))
     part = item.get("part")       # for slices: "lower" | "upper" | "step"; tuples: index
     if part is not None:
         if isinstance(expr, ast.Slice):
